@@ -18,6 +18,19 @@ def rand_dgm(rng, n, tmax, neg=False, diag=0.1):
     return out
 
 
+def repaired(rng, X):
+    """same multiset of births and same multiset of deaths as X, paired differently (still birth <= death where possible)"""
+    bs = sorted(p[0] for p in X)
+    ds = sorted(p[1] for p in X)
+    # sorted births with sorted deaths is always a valid pairing; rotate deaths among points where it stays valid
+    Y = [[b, d] for b, d in zip(bs, ds)]
+    for _ in range(len(Y)):
+        i, j = rng.randrange(len(Y)), rng.randrange(len(Y))
+        if Y[i][0] <= Y[j][1] and Y[j][0] <= Y[i][1]:
+            Y[i][1], Y[j][1] = Y[j][1], Y[i][1]
+    return Y
+
+
 def make_session(rng, nmin, nmax, tmax, neg=False, with_empty=True, nbase=3):
     """list of diagrams (ticks) with relations the spec will discover: permutation, added diagonal points, diagonal translation, rescaling"""
     bases = [rand_dgm(rng, rng.randint(nmin, nmax), tmax, neg) for _ in range(nbase)]
@@ -41,6 +54,7 @@ def make_session(rng, nmin, nmax, tmax, neg=False, with_empty=True, nbase=3):
         q = rng.randrange(len(Xp))
         Xp[q] = [Xp[q][0] + 1, Xp[q][1] + rng.choice([1, 2])]
     S.append(Xp)
+    S.append(repaired(rng, X))      # same births, same deaths, different pairing
     if with_empty:
         S.append([])
     return S
